@@ -52,16 +52,18 @@ func precheck(spec *txgen.TxSpec, galaxias bool, nonce uint64, balance *big.Int,
 // itself: the funds are burnt) and marks the account for deletion at the end
 // of the transaction, together with whatever it still receives afterwards.
 type flowModel struct {
-	pre        func(common.Address) *big.Int
-	bal        map[common.Address]*big.Int
-	destroyed  map[common.Address]bool
-	undo       []func()
-	frames     []int
-	burnSelf   *big.Int
-	burnLate   *big.Int // value that reached an already self-destructed account
-	touched    map[common.Address]bool
-	problems   []string
-	problemKey string
+	pre         func(common.Address) *big.Int
+	bal         map[common.Address]*big.Int
+	destroyed   map[common.Address]bool
+	pendingSD   bool // a SELFDESTRUCT instruction was executed and its balance move has not been reported yet
+	pendingSDAt common.Address
+	undo        []func()
+	frames      []int
+	burnSelf    *big.Int
+	burnLate    *big.Int // value that reached an already self-destructed account
+	touched     map[common.Address]bool
+	problems    []string
+	problemKey  string
 
 	liveSD                                                    int // self-destructs not undone by a failed frame
 	nFrames, nFailed, nValue, nSD, nSDSelf, nCreate, maxDepth int
@@ -199,15 +201,39 @@ func (t tracer) CaptureStart(env *kvm.KVM, from, to common.Address, create bool,
 	t.m.topSeen = true
 	t.m.enter(typ, from, to, value)
 }
+
+// CaptureState with a nil error is reported right before an instruction is executed (its stack, gas and static-context
+// checks have passed). An executed SELFDESTRUCT moves the whole balance: it must be followed by the frame report of that
+// move before anything else happens - whether or not the account was destroyed before in the transaction.
 func (t tracer) CaptureState(pc uint64, op kvm.OpCode, gas, cost uint64, scope *kvm.ScopeContext, rData []byte, depth int, err error) {
+	t.m.checkPendingSD()
+	if op == kvm.SELFDESTRUCT && err == nil {
+		t.m.pendingSD = true
+		t.m.pendingSDAt = scope.Contract.Address()
+	}
 }
 func (t tracer) CaptureEnter(typ kvm.OpCode, from, to common.Address, input []byte, gas uint64, value *big.Int) {
+	if typ == kvm.SELFDESTRUCT {
+		t.m.pendingSD = false
+	}
+	t.m.checkPendingSD()
 	t.m.enter(typ, from, to, value)
 }
-func (t tracer) CaptureExit(output []byte, gasUsed uint64, err error) { t.m.exit(err) }
+func (t tracer) CaptureExit(output []byte, gasUsed uint64, err error) {
+	t.m.checkPendingSD()
+	t.m.exit(err)
+}
+
+func (m *flowModel) checkPendingSD() {
+	if m.pendingSD {
+		m.pendingSD = false
+		m.problem("selfdestruct-executed-without-moving-the-balance", fmt.Sprintf("%s executed SELFDESTRUCT and no balance move was reported for it (the account holds %v)", m.pendingSDAt.Hex(), m.get(m.pendingSDAt)))
+	}
+}
 func (t tracer) CaptureFault(pc uint64, op kvm.OpCode, gas, cost uint64, scope *kvm.ScopeContext, depth int, err error) {
 }
 func (t tracer) CaptureEnd(output []byte, gasUsed uint64, d time.Duration, err error) {
+	t.m.checkPendingSD()
 	t.m.topErr = err
 	t.m.exit(err)
 }
